@@ -8,6 +8,7 @@ use crate::tok::*;
 use serde_json::{json, Value};
 use sqldatetime::Formatter;
 
+#[derive(Clone, Copy)]
 pub struct R<'a> {
     pub v: V,
     pub pic: &'a str,
@@ -210,7 +211,9 @@ pub fn run(ctx: &Ctx, st: &mut Stats) {
             let p = &ps[rng.below(ps.len() as u64) as usize];
             let tag = interval_tag(ty, &p.toks);
             let h = mix(hash64(p.text.as_bytes()), hash64(v.show().as_bytes()));
-            st.eval_h(h, &R { v, pic: &p.text, f: &p.f, tag, clk: clk_of(h), pre: if h >> 8 & 3 == 0 { (h >> 10) as u8 & 63 } else { 0 } }, check);
+            let c = R { v, pic: &p.text, f: &p.f, tag, clk: clk_of(h), pre: if h >> 8 & 3 == 0 { (h >> 10) as u8 & 63 } else { 0 } };
+            let anchors: Vec<i64> = v.to_lib().and_then(|x| x.day_number()).into_iter().collect();
+            crate::primers::eval_sched(st, rng, h, &c, &anchors, 0, &[], check);
         }
     });
     // record how many distinct pictures were in play
